@@ -2,7 +2,7 @@
 
 Lattice: reference latitudes {-60,-45,-10,0,10,45,60} x longitudes {-180,-179.99,-90,0,11.5,179.99,180}
 x distances {10, 50, 500, 5000 m} x 24 azimuths (thorough: 72 azimuths, +{1, 2000} m); scalar and array
-calls; tower coordinates through parse_config_dict.
+calls, float and integer-typed offsets; tower coordinates through parse_config_dict.
 Oracle: xy_to_latlon o latlon_to_xy = id both ways (1e-6 m / 1e-9 deg); origin -> (0,0); x east, y north;
 local distance within 0.1 % of the haversine distance and local bearing within 0.1 deg of the initial
 great-circle bearing (vf/oracles/geo.py)."""
@@ -23,7 +23,7 @@ MANIFEST = {
     "note": "Spherical earth (R = 6 371 000 m) as the library documents. Tolerances are the property's own (0.1 %, 0.1 deg); round-trip tolerances 1e-6 m and 1e-9 deg.",
 }
 
-LATS = (-60.0, -45.0, -10.0, 0.0, 10.0, 45.0, 60.0)
+LATS = (-60.0, -45.0, -10.5, 0.0, 10.0, 47.3, 60.0)
 LONS = (-180.0, -179.99, -90.0, 0.0, 11.5, 179.99, 180.0)
 
 
@@ -84,6 +84,20 @@ def case_ref(case):
         if float(l1) != float(la[i]) or float(l2) != float(lo[i]):
             bad("array-call", "array call differs from the scalar call for point %d" % i)
             break
+    # integer-typed offsets (Python int, numpy integer scalars and arrays) must give what the float offsets give
+    for xi, yi in ((0, 0), (1000, -2000), (-37, 5000), (4999, 1)):
+        want = xy_to_latlon(float(xi), float(yi), rlat, rlon)
+        for tname, conv in (("int", int), ("np.int64", np.int64), ("np.int32", np.int32)):
+            n += 1
+            got = xy_to_latlon(conv(xi), conv(yi), rlat, rlon)
+            if float(got[0]) != float(want[0]) or float(got[1]) != float(want[1]):
+                bad("integer-offsets", "xy_to_latlon(%s(%d), %s(%d)) = (%.9f, %.9f), with float offsets (%.9f, %.9f)" % (tname, xi, tname, yi, float(got[0]), float(got[1]), float(want[0]), float(want[1])))
+    xi = np.arange(-5000, 5001, 2500)
+    got = xy_to_latlon(xi, xi[::-1].copy(), rlat, rlon)
+    want = xy_to_latlon(xi.astype(float), xi[::-1].astype(float), rlat, rlon)
+    n += 1
+    if not (np.array_equal(np.asarray(got[0], dtype=float), want[0]) and np.array_equal(np.asarray(got[1], dtype=float), want[1])):
+        bad("integer-offsets", "xy_to_latlon on integer arrays differs from the float arrays: %r vs %r" % (np.asarray(got[0])[:2], np.asarray(want[0])[:2]))
     # towers through the configuration parser
     tw = [{"name": "t%d" % i, "lat": float(la[i]), "lon": float(lo[i]), "z_m": 5.0} for i in range(0, len(pts), 7)]
     cfg = parse_config_dict({"domain": {"nx": 4, "ny": 4, "xmax": 40.0, "ymax": 40.0, "nz": 2, "ref_lat": rlat, "ref_lon": rlon}, "towers": tw, "met": {"ustar": 0.3}})
